@@ -71,6 +71,7 @@ type Contract struct {
 	Terminates  bool
 	ReadsHeap   bool
 	CallAssumes map[string][]*Clause // callee name -> assumptions instantiated just before that call (listed in evidence)
+	CallEnsures map[string][]*Clause // callee name -> facts assumed right after that call, over the callee's parameters and results (listed in evidence)
 }
 
 type SpecFunc struct {
@@ -177,7 +178,7 @@ func (cs *ContractSet) parseFile(path string) error {
 	topKw := map[string]bool{"func": true, "spec": true, "ghost": true, "axiom": true, "funcspec": true, "lib": true, "ghostfield": true}
 	clKw := map[string]bool{"requires": true, "ensures": true, "invariant": true, "decreases": true, "modifies": true,
 		"canary": true, "props": true, "inline": true, "trusted": true, "loop": true, "call": true, "implements": true,
-		"unroll": true, "overflow": true, "nooverflow": true, "pure": true, "free": true, "assume": true, "terminates": true, "callassume": true, "exit": true, "isolated": true}
+		"unroll": true, "overflow": true, "nooverflow": true, "pure": true, "free": true, "assume": true, "terminates": true, "callassume": true, "exit": true, "isolated": true, "callensure": true}
 	for _, r := range raws {
 		t := strings.TrimSpace(r.text)
 		if t == "" {
@@ -297,6 +298,21 @@ func (cs *ContractSet) parseFile(path string) error {
 					}
 					nm := strings.TrimSpace(parts[0])
 					c.CallAssumes[nm] = append(c.CallAssumes[nm], &Clause{Kind: "callassume", Text: strings.TrimSpace(parts[1]), Expr: e, File: cl.file, Line: cl.line})
+				case "callensure":
+					// callensure f: <expr over the callee's parameter and result names and this function's parameters; old() is the state before the call>
+					parts := strings.SplitN(rest, ":", 2)
+					if len(parts) != 2 {
+						return fmt.Errorf("%s:%d: bad callensure clause", cl.file, cl.line)
+					}
+					e, err := parseSpec(strings.TrimSpace(parts[1]))
+					if err != nil {
+						return fmt.Errorf("%s:%d: %v", cl.file, cl.line, err)
+					}
+					if c.CallEnsures == nil {
+						c.CallEnsures = map[string][]*Clause{}
+					}
+					nm := strings.TrimSpace(parts[0])
+					c.CallEnsures[nm] = append(c.CallEnsures[nm], &Clause{Kind: "callensure", Text: strings.TrimSpace(parts[1]), Expr: e, File: cl.file, Line: cl.line})
 				case "call":
 					// call name: spec X
 					parts := strings.SplitN(rest, ":", 2)
